@@ -386,6 +386,90 @@ def run(model: RepoModel, rep, tier: str):
                           "assignment no longer takes the stored value from the lowered `right` child / the target from the `left` child")
 
     check_tmp_elimination(model, rep, "C01.R6")
+    check_self_unification(model, rep, P, handlers)
+
+
+BASIC = "events/default_event_handlers/basic.py"
+
+
+def check_self_unification(model: RepoModel, rep, P: ClassInfo, handlers: List[str]):
+    """C01.R7: the receiver rewriter (adjust_python_self) skips attribute keys only if no emission of the Python frontend puts a
+    lowered expression under that key."""
+    rep.rule("C01.R7", "self/this unification reaches every operand: an attribute key the rewriter skips never holds a lowered "
+                       "expression in any instruction the Python frontend emits, and string operands are compared with the receiver name", 2)
+    bm = model.module(BASIC)
+    f = bm.functions.get("adjust_python_self")
+    if f is None:
+        raise AnalysisError("adjust_python_self vanished")
+    loop = None
+    for n in walk_no_nested(f.node):
+        if isinstance(n, ast.For) and isinstance(n.iter, ast.Call) and isinstance(n.iter.func, ast.Attribute) and n.iter.func.attr == "items" \
+                and isinstance(n.target, ast.Tuple) and len(n.target.elts) == 2 and all(isinstance(e, ast.Name) for e in n.target.elts):
+            loop = n
+    if loop is None:
+        raise AnalysisError("adjust_python_self: generic `for key, value in obj.items()` loop not found")
+    kv, vv = loop.target.elts[0].id, loop.target.elts[1].id
+    skip: Dict[str, int] = {}
+    unknown_tests = []
+    for st in loop.body:
+        if isinstance(st, ast.If) and any(isinstance(b, ast.Continue) for b in st.body):
+            t = st.test
+            if isinstance(t, ast.Compare) and isinstance(t.left, ast.Name) and t.left.id == kv and len(t.ops) == 1:
+                if isinstance(t.ops[0], ast.Eq) and const_str(t.comparators[0]) is not None:
+                    skip[const_str(t.comparators[0])] = st.lineno
+                    continue
+                if isinstance(t.ops[0], ast.In) and isinstance(t.comparators[0], (ast.Tuple, ast.List, ast.Set)) \
+                        and all(const_str(e) is not None for e in t.comparators[0].elts):
+                    for e in t.comparators[0].elts:
+                        skip[const_str(e)] = st.lineno
+                    continue
+            unknown_tests.append(st)
+    for st in unknown_tests:
+        rep.unknown("C01.R7", f"{BASIC}::adjust_python_self::skip test `{norm(st.test)[:60]}`", BASIC, st.lineno, "skip condition not recognised")
+    # attribute keys under which the Python frontend emits a lowered expression
+    operand_keys: Dict[str, List[Tuple[str, str, int]]] = {}
+    n_emissions = 0
+    for hname in handlers:
+        h = P.methods.get(hname)
+        if h is None:
+            continue
+        pv = Prov(h)
+        for n in walk_no_nested(h.node):
+            if isinstance(n, ast.Dict) and len(n.keys) == 1 and const_str(n.keys[0]) and isinstance(n.values[0], ast.Dict):
+                op = const_str(n.keys[0])
+                n_emissions += 1
+                for k, v in zip(n.values[0].keys, n.values[0].values):
+                    a = const_str(k) if k is not None else None
+                    if a is None:
+                        continue
+                    lowered = (isinstance(v, ast.Name) and v.id in pv.parsed) or (isinstance(v, ast.Call) and is_self_attr(v.func, "parse"))
+                    if lowered:
+                        operand_keys.setdefault(a, []).append((op, hname, n.lineno))
+    rep.analysed["self unification"] = {"skipped keys": sorted(skip), "emissions inspected": n_emissions,
+                                        "keys holding lowered expressions": sorted(operand_keys)}
+    if not operand_keys:
+        raise AnalysisError("no emission with a lowered expression found in the python frontend (recogniser broken)")
+    for k, ln in sorted(skip.items()):
+        key = f"{BASIC}::adjust_python_self::skipped key `{k}`"
+        if k in operand_keys:
+            op, hn, l2 = operand_keys[k][0]
+            rep.violation("C01.R7", key, BASIC, ln,
+                          f"the receiver rewriter skips attribute `{k}`, but {PY}::Parser.{hn} (line {l2}) emits {op}.{k} holding a lowered "
+                          f"expression ({len(operand_keys[k])} emission(s) in all): when that expression is the method's first parameter it is "
+                          f"not renamed to %this although the parameter itself was removed -- the instruction refers to an undeclared variable")
+        else:
+            rep.holds("C01.R7", key, BASIC, ln, f"no emission of the Python frontend puts a lowered expression under `{k}`")
+    # the string comparison that performs the rewrite
+    key = f"{BASIC}::adjust_python_self::operands equal to the receiver name are rewritten"
+    hit = None
+    for n in ast.walk(loop):
+        if isinstance(n, ast.Assign) and isinstance(n.targets[0], ast.Subscript) and isinstance(n.targets[0].slice, ast.Name) \
+                and n.targets[0].slice.id == kv:
+            hit = n
+    if hit is None:
+        rep.violation("C01.R7", key, BASIC, loop.lineno, "the generic branch no longer rewrites string attributes equal to the receiver name")
+    else:
+        rep.holds("C01.R7", key, BASIC, hit.lineno, f"`{norm(hit)}` under `{vv} == first_parameter_name`")
 
 
 def check_tmp_elimination(model: RepoModel, rep, RID: str):
@@ -464,4 +548,10 @@ MUTANTS = [
     ("else-body-dropped", PY, _t("        new_else_body = []\n        #self.sync_tmp_variable(new_else_body, statements)\n        if alternative is not None:\n            for stmt in alternative.named_children:\n                self.parse(stmt, new_else_body)\n\n        self.append_stmts(statements, node, {\"while_stmt\": {\"condition\": shadow_condition, \"body\": new_while_body, \"else_body\": new_else_body}})",
                                  "        new_else_body = []\n        #self.sync_tmp_variable(new_else_body, statements)\n        if alternative is not None:\n            for stmt in alternative.named_children:\n                self.parse(stmt, new_else_body)\n\n        self.append_stmts(statements, node, {\"while_stmt\": {\"condition\": shadow_condition, \"body\": new_while_body}})"),
      "list `new_else_body`"),
+    ("self-unification-skips-name", BASIC, _t('                if key == "attrs":\n                    continue\n                if isinstance(value, (list, dict)):\n                    adjust_python_self',
+                                              '                if key in ("attrs", "name"):\n                    continue\n                if isinstance(value, (list, dict)):\n                    adjust_python_self'),
+     "skipped key `name`"),
+    ("self-unification-no-rewrite", BASIC, _t("                elif first_parameter_name and isinstance(value, str) and value == first_parameter_name:\n                    obj[key] = LIAN_INTERNAL.THIS",
+                                              "                elif first_parameter_name and isinstance(value, str) and value == first_parameter_name:\n                    pass"),
+     "operands equal to the receiver name are rewritten"),
 ]
